@@ -211,7 +211,9 @@ public:
 
 	static BitWidth bw(const std::string &s) { return BitWidth(std::stoull(s)); }
 
-	void stmt(const std::vector<std::string> &t) {
+	virtual ~Interp() = default;
+	// subclasses may handle additional statements and delegate the rest to Interp::stmt
+	virtual void stmt(const std::vector<std::string> &t) {
 		const std::string &op = t[0];
 		// copy-construct in place (== `UInt name = expr;` in user code); never move a signal object: moving has its own semantics
 		auto setU = [&](const std::string &n, const UInt &v) { auto p = std::make_shared<Val>(); p->v.emplace<UInt>(v); b.vars[n] = p; };
